@@ -176,11 +176,12 @@ class DeadlineQueue(QueuePolicy[T]):
         """
         now = self._now()
 
-        for entry in self._heap:
-            if now is None or entry.deadline >= now:
-                return entry.item
-
-        return None
+        # The heap list is only partially ordered, so the first non-expired
+        # entry in list order is not necessarily the one pop() returns next.
+        live = [entry for entry in self._heap if now is None or entry.deadline >= now]
+        if not live:
+            return None
+        return min(live).item
 
     def purge_expired(self) -> int:
         """Remove all expired items from the queue.
